@@ -108,6 +108,15 @@ def build_dense(spec, single32, ascii_):
         # strings with 2999 / 3000 / 3001 numbers: both sides of the struct / fromfile switch
         for j, n in enumerate(spec["lens"]):
             M[1 + j:1 + j + n, j] = True
+    elif pat == "tall":
+        # many rows: short strings that start just below / at / above row 32768 (15/16-bit row packing of the
+        # nonbigmat string header) and at the very end, plus a string that runs across 32768
+        for j in range(c):
+            for start in spec["starts"]:
+                s0 = min(max(0, start + j), r - 1)
+                M[s0:min(r, s0 + 1 + (j + start) % 3), j] = True
+        if spec.get("across") and r > 32770:
+            M[32760:32775, c - 1] = True
     elif pat == "long":
         # one run longer than the struct/fromfile cut-over, short runs elsewhere
         n = spec["nlong"]
@@ -373,6 +382,16 @@ def matrix_spec(draw, pool, binary, long_ok):
         spec["nlong"] = draw(st.sampled_from([2999, 3000, 3001, 3600]))
         spec["r"] = spec["nlong"] + draw(st.integers(0, 40))
         spec["c"] = draw(st.integers(1, 3))
+        spec["vals"] = draw(st.sampled_from(["unit", "int"]))
+    elif long_ok and draw(st.integers(0, 9)) == 0:
+        spec["pattern"] = "tall"
+        spec["r"] = draw(st.sampled_from([32767, 32768, 32769, 32770, 40000, 65535] if layout == "nonbigmat" else
+                                         [32769, 40000, 65535, 65536, 65537, 70001]))
+        spec["c"] = draw(st.integers(1, 3))
+        spec["starts"] = sorted(set(draw(st.lists(st.sampled_from(
+            [0, 5, 16383, 16384, 32765, 32766, 32767, 32768, 32769, 32780, 39990, 49151, 49152, 65533, 65534,
+             65535, 65536, 70000]), min_size=1, max_size=6))))
+        spec["across"] = draw(st.booleans())
         spec["vals"] = draw(st.sampled_from(["unit", "int"]))
     else:
         spec["pattern"] = draw(st.sampled_from(PATTERNS))
@@ -1066,6 +1085,34 @@ def enum_op4_sparse_f32(shard, nshards, tier):
             yield c
 
 
+def enum_op4_tall(shard, nshards, tier):
+    """rows beyond 2**15 and 2**16: string start rows around 32768 / 49152 / 65535 for every layout the row
+    count allows, every precision x key width x byte order, and ASCII"""
+    cases = []
+    starts = [0, 16384, 32766, 32767, 32768, 32769, 39990, 49152, 65533, 69990]
+    encs = [{"binary": True, "endian": e, "bit64": b} for b in (False, True) for e in "<>"] + \
+           [{"binary": False, "fmt": {"exp": "E"}, "iswidth": 8}]
+    for enc in encs:
+        for layout, rows in (("nonbigmat", 40000), ("nonbigmat", 65535), ("bigmat", 40000), ("bigmat", 70000),
+                             ("dense", 40000), ("dense", 70000)):
+            for mtype in (1, 2, 3, 4):
+                if not enc["binary"] and mtype in (1, 3):
+                    continue
+                spec = {"name": "TALL", "mtype": mtype, "layout": layout, "form": 2, "seed": 400 + len(cases),
+                        "vals": "int", "pmode": "natural", "trim": True, "pattern": "tall", "r": rows, "c": 2,
+                        "starts": [s_ for s_ in starts if s_ < rows], "across": True}
+                if not enc["binary"]:
+                    spec["fmt"] = {"digits": 9, "width": 16, "perline": 5, "onep": True}
+                cases.append({"enc": enc, "subset": len(cases), "mats": [
+                    spec, {"name": "AFTER", "mtype": 2, "layout": "dense", "form": 1, "seed": 5, "vals": "int",
+                           "pmode": "natural", "trim": True, "pattern": "dense", "r": 2, "c": 2,
+                           **({"fmt": {"digits": 9, "width": 16, "perline": 5, "onep": True}}
+                              if not enc["binary"] else {})}]})
+    for i, c in enumerate(cases):
+        if i % nshards == shard:
+            yield c
+
+
 def _cut_lens(mtype):
     return [1499, 1500, 1501] if mtype > 2 else [2999, 3000, 3001]
 
@@ -1123,6 +1170,7 @@ PARTS = [
     Part("op2", oracle_op2, strategy=op2_files, quick=(16, 90), thorough=(16, 1200)),
     Part("op4_cutover", oracle_op4, enum=enum_op4_cutover, quick=(8, None), thorough=(8, None), exhaustive=True),
     Part("op2_cutover", oracle_op2, enum=enum_op2_cutover, quick=(8, None), thorough=(8, None), exhaustive=True),
+    Part("op4_tall", oracle_op4, enum=enum_op4_tall, quick=(16, None), thorough=(16, None), exhaustive=True),
     Part("op4_sparse_f32", oracle_op4, enum=enum_op4_sparse_f32, quick=(4, None), thorough=(4, None),
          exhaustive=True),
     Part("op2_uint64", oracle_op2, enum=enum_uint64, quick=(4, None), thorough=(4, None), exhaustive=True),
